@@ -69,6 +69,10 @@ def expand_(
                     nonlocal active_count
 
                     observer.on_next(value)
+                    if d.is_disposed:
+                        # the subscriber unsubscribed inside on_next: the mapper
+                        # must not run on its behalf any more
+                        return
                     result = None
                     try:
                         result = mapper(value)
